@@ -3,7 +3,7 @@ import os
 from lib import driver as D
 
 MUTANTS = ["convertsIgnoresTo", "toIntegerAcceptsDecimalString", "toDecimalAcceptsExponent", "toDateKeepsTime"]
-PROGRAMS = 4            # to, conv, toto, strto  (+ receiver alone + receiver.toString() per case)
+# programs per case: to, conv, toto, strto (+ strconv when x is already of type T), + receiver alone + receiver.toString()
 
 
 def run(ctx):
@@ -31,7 +31,7 @@ def run(ctx):
     # direction A: replay every case in the real code
     D.run_harness(ctx, binary, ["run", ctx.path("allcases.ndjson"), ctx.path("obs.ndjson")])
     obs = D.read_ndjson(ctx.path("obs.ndjson"))
-    expected = PROGRAMS * (n_tlc + len(seeded))
+    expected = sum(len(c["progs"]) for c in cases + seeded)
     if len([o for o in obs if not o["alias"]]) != expected:
         raise D.Inconclusive("harness wrote %d observations for %d programs" % (len(obs), expected))
     # role 3: judge (in slices, so that no single TLC run has to load more than ~15 MB of JSON)
@@ -49,7 +49,7 @@ def run(ctx):
         ctx, verdicts, by_id, evaluations=len(obs) + 2 * (n_tlc + len(seeded)),
         rule="every pool item (all System types, precisions, boundaries; %d strings of the valid/near-valid grammar pool) as literal, "
              "environment variable and FHIR primitive element of every kind that denotes it, plus four complex elements, x 8 targets x "
-             "{toT, convertsToT, toT.toT, toString.toT}; plus %d seeded grammar strings x 8 x 4; "
+             "{toT, convertsToT, toT.toT, toString.toT; toString.convertsToT for x of type T}; plus %d seeded grammar strings x 8 x 4; "
              "distinct = (program, target, source kind, FHIR kind, item type, outcome kind, result size)" % (count_strings(cases), len(seeded) // 8),
         nontrivial_keys=keys,
         samples=[{"src": o["src"], "out": o["out"]} for o in obs[::step]],
